@@ -221,3 +221,48 @@ Proof.
   replace (Z.min m (snd it)) with (snd it) by lia. rewrite Z.eqb_refl. cbn [negb andb app].
   apply (IH _ (snd it)); [exact Hv|lia].
 Qed.
+
+(* ---- pages that are not below a removed page keep their level (for an originally valid tree) ---- *)
+
+Definition open_bound (open : option Z) (m prev : Z) : Prop :=
+  match open with
+  | Some a => Z.min (prev + 1) a <= m
+  | None => prev + 1 <= m
+  end.
+
+Lemma under_removed_ids : forall items del open it b,
+  In (it, b) (under_removed open items del) -> In it items.
+Proof.
+  induction items as [|x t IH]; intros del open it b Hin; [contradiction|].
+  cbn [under_removed] in Hin. destruct Hin as [Hin|Hin].
+  - injection Hin as Hx _. left; exact Hx.
+  - right. eapply IH; exact Hin.
+Qed.
+
+Lemma fix_ref_not_under : forall items del m prev open it,
+  valid_from prev items -> NoDup (ids items) ->
+  open_bound open m prev ->
+  In (it, false) (under_removed open items del) ->
+  lookup_fix (fst it) (fix_ref m items del) = None.
+Proof.
+  induction items as [|x t IH]; intros del m prev open it Hv Hnd Hb Hin; [contradiction|].
+  cbn [valid_from] in Hv. destruct Hv as [Hx Hv].
+  inversion Hnd as [|? ? Hnotin Hnd']; subst.
+  cbn [under_removed] in Hin. destruct Hin as [Hin|Hin].
+  - injection Hin as Hit Hunder. subst x.
+    assert (Hmin : Z.min m (snd it) = snd it).
+    { unfold open_bound in Hb. destruct open as [a|].
+      - destruct (Z.ltb_spec a (snd it)); [discriminate|]. lia.
+      - lia. }
+    cbn [fix_ref]. rewrite Hmin, Z.eqb_refl. cbn [negb andb app].
+    apply lookup_fix_notin. intros n Hn. apply fix_ref_ids_subset in Hn. tauto.
+  - assert (Hit : In (fst it) (ids t)).
+    { apply under_removed_ids in Hin. unfold ids. apply in_map. exact Hin. }
+    cbn [fix_ref]. rewrite lookup_skip.
+    + eapply (IH del _ (snd x)); [exact Hv|exact Hnd'| |exact Hin].
+      unfold open_bound in *.
+      destruct (py_mem Z.eqb (fst x) del); destruct open as [a|];
+        try (destruct (Z.ltb_spec a (snd x))); lia.
+    + intros n Hn. destruct (andb _ _); [|contradiction]. destruct Hn as [Hn|[]]. injection Hn as Hid _.
+      apply Hnotin. rewrite Hid. exact Hit.
+Qed.
